@@ -132,6 +132,11 @@ enum Strategy {
 	Interleave,
 	/// item 0 is held back until `m` later items have completed
 	HoldFirst(usize),
+	/// item `idx` is held back (once it has started) until `m` other items have completed
+	Hold(usize, usize),
+	/// up to `b` in-flight items (the newest ones) are released together – their mutual order is left to
+	/// the runtime, so such a case is judged by the oracle only (no model line)
+	Burst(usize),
 	Random(u64),
 }
 
@@ -198,7 +203,9 @@ fn execute(rt: &tokio::runtime::Runtime, op: Op, window: usize, k: Option<usize>
 			let mut choices = vec![];
 			let mut kept = 0usize;
 			let mut rng = Rng::new(if let Strategy::Random(s) = &strat { *s } else { 0 });
-			for step in 0..len {
+			let mut held = 0usize;
+			let mut step = 0usize;
+			while step < len {
 				// 1. the window has been refilled: exactly min(len, step + window) callbacks have started
 				let want = len.min(step + window);
 				let g = gate.m.lock().unwrap();
@@ -215,7 +222,45 @@ fn execute(rt: &tokio::runtime::Runtime, op: Op, window: usize, k: Option<usize>
 				}
 				// 2. choose among the items that have started and are not released
 				let inflight: Vec<usize> = (0..len).filter(|i| g.started[*i] && !g.released[*i]).collect();
+				if let Strategy::Burst(b) = &strat {
+					let picks: Vec<usize> = inflight.iter().rev().take((*b).max(1)).cloned().collect();
+					for c in &picks {
+						g.released[*c] = true;
+						choices.push(*c);
+						gate.item[*c].notify_all();
+						if keeps[*c] { kept += 1; }
+					}
+					step += picks.len();
+					if !ORDER_FREE.load(SeqCst) {
+						let refill = step + window;
+						let can_refill = refill <= len;
+						let (g, _) = gate
+							.cv
+							.wait_timeout_while(g, Duration::from_secs(5), |s| s.tap.len() < kept && !(can_refill && s.n_started >= refill) && !s.abort)
+							.unwrap();
+						if g.abort {
+							gate.abort(g);
+							return (choices, Some(format!("step {step}: aborted")), false);
+						}
+						if g.tap.len() < kept {
+							ORDER_FREE.store(true, SeqCst);
+						}
+					}
+					continue;
+				}
 				let c = match &strat {
+					Strategy::Burst(_) => unreachable!(),
+					Strategy::Hold(idx, m) => {
+						if inflight.contains(idx) && held < *m && inflight.len() > 1 {
+							held += 1;
+							let others: Vec<usize> = inflight.iter().filter(|i| *i != idx).cloned().collect();
+							others[step % others.len()]
+						} else if inflight.contains(idx) {
+							*idx
+						} else {
+							inflight[0]
+						}
+					}
 					Strategy::Digits(d) => inflight[d[step] % inflight.len()],
 					Strategy::Fixed(l) => {
 						if step >= l.len() || !inflight.contains(&l[step]) {
@@ -257,6 +302,7 @@ fn execute(rt: &tokio::runtime::Runtime, op: Op, window: usize, k: Option<usize>
 						}
 					}
 				}
+				step += 1;
 			}
 			(choices, None, false)
 		})
@@ -359,6 +405,7 @@ struct Ctx<'a> {
 }
 
 fn run_case(cx: &mut Ctx, op: Op, want_window: usize, k: Option<usize>, items: &[(u64, u64)], strat: Strategy) {
+	let oracle_only = matches!(strat, Strategy::Burst(_));
 	if STALLS.load(std::sync::atomic::Ordering::SeqCst) >= 5 {
 		return;
 	}
@@ -389,7 +436,12 @@ fn run_case(cx: &mut Ctx, op: Op, want_window: usize, k: Option<usize>, items: &
 		cx.out.notes.push("order-free mode: a released result did not leave the operator before later ones (delivery is not in completion order); the controller stopped waiting for the tap, only the multiset/pairing/consumer laws are judged from here on".into());
 	}
 	let reordered = o.choices.windows(2).any(|w| w[0] > w[1]);
-	cx.out.case(&line, &impl_line, reordered);
+	if oracle_only {
+		cx.out.eval(&line, reordered);
+		cx.out.count("burst_schedules");
+	} else {
+		cx.out.case(&line, &impl_line, reordered);
+	}
 	cx.out.count(&format!("op_{}", op.name()));
 	cx.out.count(&format!("window_{window}"));
 	cx.out.count(&format!("consumer_{}", if k.is_some() { "buffered" } else { "collect" }));
@@ -617,6 +669,200 @@ fn converter_cases(cx: &mut Ctx, rng: &mut Rng, thorough: bool, replay: Option<&
 	}
 }
 
+// ---------------------------------------------------------------- faults, reuse, composition (oracle only)
+
+/// A callback that panics on one item (first / middle / last) – for every operator the stream must
+/// fail loudly (the panic reaches the consumer); finishing normally means the item was lost silently.
+/// case: `C14panic <op> <len> <at>`
+fn panic_case(cx: &mut Ctx, op: Op, len: usize, at: usize) {
+	let items: Vec<(u64, u64)> = (0..len as u64).map(|i| (if op == Op::Coord { i + 1 } else { 500 + i / 2 }, i + 1)).collect();
+	let bad = items[at].1;
+	let rt = cx.rt;
+	let its = items.clone();
+	let res = catch(move || {
+		rt.block_on(async move {
+			let big = 100;
+			let stream = match op {
+				Op::Map => TileStream::from_vec(its.iter().map(|(c, a)| (coord_of(*c), blob_of(*a))).collect()).map_blob_parallel(move |b| {
+					let a = val_of(&b);
+					if a == bad { panic!("callback failed"); }
+					res_blob(Op::Map.f(a).unwrap(), big)
+				}),
+				Op::Fmap => TileStream::from_vec(its.iter().map(|(c, a)| (coord_of(*c), blob_of(*a))).collect()).filter_map_blob_parallel(move |b| {
+					let a = val_of(&b);
+					if a == bad { panic!("callback failed"); }
+					Op::Fmap.f(a).map(|r| res_blob(r, big))
+				}),
+				Op::Coord => TileStream::from_coord_iter_parallel(its.iter().map(|(c, _)| coord_of(*c)).collect::<Vec<_>>().into_iter(), move |c| {
+					let a = id_of(&c);
+					if a == bad { panic!("callback failed"); }
+					Op::Coord.f(a).map(|r| res_blob(r, big))
+				}),
+			};
+			stream.collect().await.len()
+		})
+	});
+	let case = format!("C14panic {} {} {}", op.name(), len, at);
+	cx.out.eval(&case, true);
+	cx.out.count("panic_cases");
+	match res {
+		Err(_) => {
+			cx.out.count("panic_reached_consumer");
+			cx.out.oracle(true, "", json!(null), json!(null));
+		}
+		Ok(n) => {
+			let m = format!("the callback panicked on item {at} of {len}, yet the stream finished normally with {n} items: the tile was dropped silently");
+			cx.out.oracle(false, &format!("C14 panic swallowed: {m}"), json!({"kind": "panic_swallowed", "op": op.name()}), json!({"case": case, "message": m}));
+		}
+	}
+}
+
+/// The sequential combinators (stream `C14s`, with model lines): from_vec/collect, next, for_each_sync,
+/// for_each_async, map_coord, from_coord_vec_async, from_stream_iter, drain_and_count.
+fn seq_cases(cx: &mut Ctx, rng: &mut Rng, replay: Option<&[&str]>) {
+	let show_items = |v: &[(u64, u64)]| if v.is_empty() { "-".to_string() } else { v.iter().map(|(c, a)| format!("{c}:{a}")).collect::<Vec<_>>().join(",") };
+	let parse_items = |s: &str| -> Vec<(u64, u64)> { if s == "-" { vec![] } else { s.split(',').map(|x| { let (c, a) = x.split_once(':').unwrap(); (c.parse().unwrap(), a.parse().unwrap()) }).collect() } };
+	let mut plan: Vec<(String, String)> = vec![];
+	if let Some(t) = replay {
+		plan.push((t[1].to_string(), t[2].to_string()));
+	} else {
+		for comb in ["collect", "next", "sync", "async", "mapcoord", "vecasync", "count", "flatten"] {
+			for len in [0usize, 1, 2, 7, 40, 300] {
+				let mk = |rng: &mut Rng, n: usize| -> Vec<(u64, u64)> { (0..n).map(|_| (rng.below(30), 1 + rng.below(1000))).collect() };
+				if comb == "flatten" {
+					let groups: Vec<String> = (0..rng.range(1, 5)).map(|_| { let n = rng.below(len as u64 + 1) as usize; show_items(&mk(rng, n)) }).collect();
+					plan.push((comb.to_string(), groups.join("|")));
+				} else {
+					plan.push((comb.to_string(), show_items(&mk(rng, len))));
+				}
+			}
+		}
+	}
+	let to_stream = |v: &[(u64, u64)]| TileStream::from_vec(v.iter().map(|(c, a)| (coord_of(*c), blob_of(*a))).collect());
+	let conv = |v: Vec<(TileCoord3, Blob)>| v.iter().map(|(c, b)| (id_of(c), val_of(b))).collect::<Vec<_>>();
+	for (comb, arg) in plan {
+		let rt = cx.rt;
+		let res: String = match comb.as_str() {
+			"flatten" => {
+				let groups: Vec<Vec<(u64, u64)>> = arg.split('|').map(|g| parse_items(g)).collect();
+				rt.block_on(async {
+					let futs = groups.iter().map(|g| { let g = g.clone(); async move { TileStream::from_vec(g.iter().map(|(c, a)| (coord_of(*c), blob_of(*a))).collect()) } });
+					show_seq(&conv(TileStream::from_stream_iter(futs).await.collect().await))
+				})
+			}
+			_ => {
+				let items = parse_items(&arg);
+				rt.block_on(async {
+					match comb.as_str() {
+						"collect" => show_seq(&conv(to_stream(&items).collect().await)),
+						"next" => {
+							let mut s = to_stream(&items);
+							let mut v = vec![];
+							while let Some(x) = s.next().await { v.push(x); }
+							show_seq(&conv(v))
+						}
+						"sync" => { let mut v = vec![]; to_stream(&items).for_each_sync(|x| v.push(x)).await; show_seq(&conv(v)) }
+						"async" => {
+							let v = Arc::new(Mutex::new(vec![]));
+							let v2 = v.clone();
+							to_stream(&items).for_each_async(move |x| { let v3 = v2.clone(); async move { v3.lock().unwrap().push(x); } }).await;
+							let r = conv(v.lock().unwrap().clone());
+							show_seq(&r)
+						}
+						"mapcoord" => show_seq(&conv(to_stream(&items).map_coord(|c| coord_of(id_of(&c) + 3)).collect().await)),
+						"vecasync" => {
+							let coords: Vec<TileCoord3> = items.iter().map(|(c, _)| coord_of(*c)).collect();
+							show_seq(&conv(TileStream::from_coord_vec_async(coords, |c| async move {
+								let id = id_of(&c);
+								if id % 3 == 0 { None } else { Some((coord_of(id + 1), blob_of(2 * id))) }
+							}).collect().await))
+						}
+						_ => to_stream(&items).drain_and_count().await.to_string(),
+					}
+				})
+			}
+		};
+		cx.out.case(&format!("C14s {comb} {arg}"), &res, arg != "-");
+		cx.out.count(&format!("seq_{comb}"));
+		cx.out.oracle(true, "", json!(null), json!(null));
+	}
+}
+
+/// A stream consumed partially and then dropped, and a stream mapped twice (oracle only, free-running
+/// callbacks): what was delivered must be correctly paired, never twice; nothing may hang or panic.
+fn reuse_cases(cx: &mut Ctx, rng: &mut Rng) {
+	for op in [Op::Map, Op::Fmap, Op::Coord] {
+		for (len, take) in [(5usize, 0usize), (5, 2), (40, 1), (40, 17), (400, 100), (400, 399)] {
+			let items = gen_items(rng, op, len);
+			let its = items.clone();
+			let rt = cx.rt;
+			let res = catch(move || rt.block_on(async move {
+				let big = 100;
+				let mut stream = match op {
+					Op::Map => TileStream::from_vec(its.iter().map(|(c, a)| (coord_of(*c), blob_of(*a))).collect()).map_blob_parallel(move |b| res_blob(Op::Map.f(val_of(&b)).unwrap(), big)),
+					Op::Fmap => TileStream::from_vec(its.iter().map(|(c, a)| (coord_of(*c), blob_of(*a))).collect()).filter_map_blob_parallel(move |b| Op::Fmap.f(val_of(&b)).map(|r| res_blob(r, big))),
+					Op::Coord => TileStream::from_coord_iter_parallel(its.iter().map(|(c, _)| coord_of(*c)).collect::<Vec<_>>().into_iter(), move |c| Op::Coord.f(id_of(&c)).map(|r| res_blob(r, big))),
+				};
+				let mut got = vec![];
+				while got.len() < take {
+					match stream.next().await { Some((c, b)) => got.push((id_of(&c), res_val(&b))), None => break }
+				}
+				drop(stream);
+				got
+			}));
+			let case = format!("C14partial {} {} {}", op.name(), len, take);
+			cx.out.eval(&case, true);
+			cx.out.count("partial_then_dropped");
+			let want: Vec<(u64, u64)> = items.iter().filter_map(|(c, a)| op.f(*a).map(|r| (*c, r))).collect();
+			let verdict = match res {
+				Err(m) => Some(format!("panic: {m}")),
+				Ok(got) => {
+					let mut rest = want.clone();
+					let mut bad = None;
+					for p in &got {
+						if let Some(pos) = rest.iter().position(|q| q == p) { rest.remove(pos); } else { bad = Some(format!("delivered pair {p:?} is not (or no longer) owed by the input")); break; }
+					}
+					if bad.is_none() && got.len() < take.min(want.len()) { bad = Some(format!("stream ended after {} of {} items", got.len(), want.len())); }
+					bad
+				}
+			};
+			match verdict {
+				None => cx.out.oracle(true, "", json!(null), json!(null)),
+				Some(m) => cx.out.oracle(false, &format!("C14 partial: {m}"), json!({"kind": "partial", "op": op.name()}), json!({"case": case, "message": m})),
+			}
+		}
+	}
+	// mapped twice: map_blob_parallel(v+1) then filter_map_blob_parallel(drop multiples of 3, else 2v)
+	for len in [0usize, 1, 16, 17, 300, 3000] {
+		let items: Vec<(u64, u64)> = (0..len as u64).map(|i| (rng.below(len as u64 / 2 + 1), 1 + i)).collect();
+		let its = items.clone();
+		let rt = cx.rt;
+		let res = catch(move || rt.block_on(async move {
+			TileStream::from_vec(its.iter().map(|(c, a)| (coord_of(*c), blob_of(*a))).collect())
+				.map_blob_parallel(|b| blob_of(val_of(&b) + 1))
+				.filter_map_blob_parallel(|b| { let v = val_of(&b); if v % 3 == 0 { None } else { Some(blob_of(2 * v)) } })
+				.collect()
+				.await
+				.iter()
+				.map(|(c, b)| (id_of(c), val_of(b)))
+				.collect::<Vec<_>>()
+		}));
+		let case = format!("C14double {len}");
+		cx.out.eval(&case, len > 1);
+		cx.out.count("mapped_twice");
+		let mut want: Vec<(u64, u64)> = items.iter().filter_map(|(c, a)| if (a + 1) % 3 == 0 { None } else { Some((*c, 2 * (a + 1))) }).collect();
+		want.sort();
+		let verdict = match res {
+			Err(m) => Some(format!("panic: {m}")),
+			Ok(mut got) => { got.sort(); if got == want { None } else { Some(format!("{} outputs, {} demanded by the composed callback", got.len(), want.len())) } }
+		};
+		match verdict {
+			None => cx.out.oracle(true, "", json!(null), json!(null)),
+			Some(m) => cx.out.oracle(false, &format!("C14 double: {m}"), json!({"kind": "double-map"}), json!({"case": case, "message": m})),
+		}
+	}
+}
+
 /// all digit vectors d with d[i] < min(window, len - i): every valid completion order
 fn all_digit_vectors(len: usize, window: usize) -> Vec<Vec<usize>> {
 	let radix: Vec<usize> = (0..len).map(|i| window.min(len - i)).collect();
@@ -638,7 +884,7 @@ fn all_digit_vectors(len: usize, window: usize) -> Vec<Vec<usize>> {
 pub fn run(args: &Args) {
 	quiet_panics();
 	let mut out = Out::new(&args.out);
-	out.rule = "real TileStream::{map_blob_parallel, filter_map_blob_parallel, from_coord_iter_parallel} (+ collect / for_each_buffered k) on a 24-worker tokio runtime with gate-controlled callbacks: the controller releases one started item at a time and the released result must pass a tap before the next release; window = num_cpus::get() varied through thread CPU affinity; ALL completion orders (all digit vectors d[i] < min(window, len-i)) for len ≤ 6 (thorough ≤ 7) at the full window and for small windows, plus reverse/rotate/interleave/seeded-random orders for streams of 10^2..10^4 items, a straggler schedule (first item overtaken by ≥1500 later ones), and TileConverter::new_tile_recompressor(src,dst,force).process_stream for all 18 configurations over streams with one truncated/garbage/empty/other-codec/uncompressed tile among valid ones (loud failure or exactly one output per input); non-trivial = the completion order differs from the submission order; distinct by case text".into();
+	out.rule = "real TileStream::{map_blob_parallel, filter_map_blob_parallel, from_coord_iter_parallel} (+ collect / for_each_buffered k) on a 24-worker tokio runtime with gate-controlled callbacks: the controller releases one started item at a time and the released result must pass a tap before the next release; window = num_cpus::get() varied through thread CPU affinity; ALL completion orders (all digit vectors d[i] < min(window, len-i)) for len ≤ 6 (thorough ≤ 7) at the full window and for small windows, plus reverse/rotate/interleave/seeded-random orders for streams of 10^2..10^4 items, straggler schedules (first / middle / last item held back), stream lengths window-1..window+2 at concurrency limits 1, 2 and the full window, bursts (several releases at once, oracle only), chunk sizes len-1 / len / len+1, callbacks that panic on the first / middle / last item (must fail loudly), streams dropped after partial consumption, a stream mapped twice, the sequential combinators (stream C14s), and TileConverter::new_tile_recompressor(src,dst,force).process_stream for all 18 configurations over streams with one truncated/garbage/empty/other-codec/uncompressed tile among valid ones (loud failure or exactly one output per input); non-trivial = the completion order differs from the submission order; distinct by case text".into();
 	let aff = Affinity::new();
 	// worker threads are created now, with the unrestricted affinity
 	let rt = tokio::runtime::Builder::new_multi_thread().worker_threads(24).enable_all().build().unwrap();
@@ -648,6 +894,14 @@ pub fn run(args: &Args) {
 	if let Some(p) = &args.replay {
 		for line in std::fs::read_to_string(p).unwrap().lines() {
 			let t: Vec<&str> = line.split(' ').collect();
+			if t.len() == 3 && t[0] == "C14s" {
+				seq_cases(&mut cx, &mut Rng::new(0), Some(&t));
+				continue;
+			}
+			if t.len() == 4 && t[0] == "C14panic" {
+				panic_case(&mut cx, Op::parse(t[1]), t[2].parse().unwrap(), t[3].parse().unwrap());
+				continue;
+			}
 			if t.len() == 8 && t[0] == "C14conv" {
 				converter_cases(&mut cx, &mut Rng::new(0), false, Some(&t));
 				continue;
@@ -675,7 +929,7 @@ pub fn run(args: &Args) {
 		for len in 0..=max_len {
 			let items = gen_items(&mut rng, op, len);
 			for (ci, d) in all_digit_vectors(len, full).into_iter().enumerate() {
-				let k = match ci % 4 { 0 => None, 1 => Some(2), 2 => Some(0), _ => Some(len.max(1)) };
+				let k = match ci % 7 { 0 => None, 1 => Some(2), 2 => Some(0), 3 => Some(len.max(1)), 4 => Some(len + 1), 5 => Some(len.saturating_sub(1)), _ => Some(1) };
 				run_case(&mut cx, op, full, k, &items, Strategy::Digits(d));
 			}
 		}
@@ -718,7 +972,42 @@ pub fn run(args: &Args) {
 			run_case(&mut cx, op, full, k, &items, Strategy::HoldFirst(hold));
 		}
 	}
+	// concurrency limit × schedule family: stream lengths window-1, window, window+1, window+2 and a longer
+	// one, at the limits 1, 2 and the full window; stragglers at the first / middle / last position; bursts
+	for op in ops {
+		for window in [1usize, 2, full] {
+			for len in [window.saturating_sub(1).max(1), window, window + 1, window + 2, 3 * window + 5] {
+				let mid = len / 2;
+				let fams: Vec<Strategy> = vec![
+					Strategy::Last, Strategy::Rotate, Strategy::Interleave,
+					Strategy::Hold(0, len), Strategy::Hold(mid, len), Strategy::Hold(len - 1, len),
+					Strategy::Burst(2), Strategy::Burst(window.max(2)), Strategy::Burst(len),
+				];
+				for st in fams {
+					let items = gen_items(&mut rng, op, len);
+					let k = match rng.below(5) { 0 => None, 1 => Some(len), 2 => Some(len + 1), 3 => Some(len.saturating_sub(1)), _ => Some(3) };
+					run_case(&mut cx, op, window, k, &items, st);
+				}
+			}
+		}
+		// stragglers in a long stream: middle and last item
+		for (idx, len) in [(1500usize, 3000usize), (2999, 3000)] {
+			let items = gen_items(&mut rng, op, len);
+			run_case(&mut cx, op, full, Some(64), &items, Strategy::Hold(idx, 1200));
+		}
+		let items = gen_items(&mut rng, op, 2000);
+		run_case(&mut cx, op, full, None, &items, Strategy::Burst(full));
+	}
+	seq_cases(&mut cx, &mut rng, None);
+	reuse_cases(&mut cx, &mut rng);
 	converter_cases(&mut cx, &mut rng, args.thorough(), None);
+	for op in ops {
+		for len in [1usize, 5, 40] {
+			for at in [0, len / 2, len - 1] {
+				panic_case(&mut cx, op, len, at);
+			}
+		}
+	}
 	// many medium random schedules
 	for _ in 0..args.n(300, 3000) {
 		let op = *rng.pick(&ops);
